@@ -226,6 +226,65 @@ fn ecrts19(ctx: &mut Ctx, id: u64, lim: u64, tmax: u64, cmax: u64, pmax: u64, ch
                          "nontrivial": nontrivial, "chain": chain_len}));
 }
 
+/// Heavily loaded timer-only workloads (C04): several instances of the timer under analysis share one busy window,
+/// so offsets > 0 of `rta_timer` are exercised, and the analysed timer's later instances are cheaper than its first
+/// (cumulative-cost curve w), so the window in which higher-priority timers interfere depends on which instance is meant.
+fn busy_timers(ctx: &mut Ctx, id: u64, lim: u64, supply: Value, timers: &[(u64, u64, Vec<u64>)]) {
+    // timers in priority order: (period, wcet, w)
+    let n = timers.len();
+    let wd = ctx.watchdog_ms;
+    let h = 2 * lim + 4;
+    let arr = |i: usize| json!({"k": "periodic", "T": timers[i].0});
+    let unit = |i: usize| rbf_w(&arr(i), timers[i].1, &timers[i].2);
+    let mut claims = vec![];
+    let mut calls = vec![];
+    for i in 0..n {
+        let hp: Vec<Value> = (0..i).map(unit).collect();
+        let lower_max = (i + 1..n).map(|j| timers[j].1).max().unwrap_or(0);
+        let (own, hpr) = match (crate::drivers::ros2::demand_rec(&unit(i), h, wd),
+                                crate::drivers::ros2::demand_rec(&json!({"k": "agg", "of": hp}), h, wd)) {
+            (Some(a), Some(b)) => (a, b),
+            _ => return,
+        };
+        let inp = json!({"op": "ros2_timer", "supply": supply, "lim": lim, "own": own, "hp": hpr, "B": lower_max.saturating_sub(1)});
+        let out = guarded(&inp, wd, call_ros2);
+        let r = out.get("ok").and_then(|x| x.as_i64()).unwrap_or(-1);
+        if r < 0 {
+            eprintln!("busy_timers {}: timer {} has no bound: {}", id, i, out);
+            return;
+        }
+        claims.push(r);
+        calls.push(json!({"op": "ros2_timer", "B": inp["B"], "out": out}));
+    }
+    let mut cbs = vec![];
+    for i in 0..n {
+        let cap = cap_of(ctx, &arr(i), claims[i]);
+        cbs.push(json!({"t": "timer", "prio": i as i64, "arr": arr_of(&arr(i)), "succ": 0, "C": timers[i].1, "R": claims[i],
+                        "cap": cap, "w": timers[i].2}));
+    }
+    if state_estimate(&cbs, &supply) > 4.0e7 {
+        eprintln!("busy_timers {}: estimate {}", id, state_estimate(&cbs, &supply));
+        return;
+    }
+    ctx.sink.raw(&json!({"id": id, "family": "ecrts19", "variant": "busy_timers", "supply": supply, "cbs": cbs, "lim": lim,
+                         "calls": calls, "nontrivial": true, "chain": 0}));
+}
+
+fn busy_timer_presets(ctx: &mut Ctx, first_id: u64, lim: u64) {
+    let presets: Vec<(Value, Vec<(u64, u64, Vec<u64>)>)> = vec![
+        (json!({"k": "periodic", "Q": 3, "P": 4}), vec![(9, 4, vec![]), (13, 5, vec![5, 7])]),
+        (json!({"k": "dedicated"}), vec![(5, 3, vec![]), (9, 4, vec![4, 5])]),
+        (json!({"k": "constrained", "Q": 3, "D": 3, "P": 4}), vec![(6, 2, vec![]), (10, 3, vec![3, 4])]),
+        (json!({"k": "periodic", "Q": 2, "P": 3}), vec![(8, 3, vec![]), (12, 4, vec![4, 6])]),
+        (json!({"k": "dedicated"}), vec![(7, 2, vec![]), (9, 2, vec![]), (14, 4, vec![4, 5])]),
+        (json!({"k": "periodic", "Q": 3, "P": 4}), vec![(8, 3, vec![3, 4]), (12, 4, vec![])]),
+    ];
+    let k = if ctx.thorough { presets.len() } else { 4 };
+    for (i, (sup, ts)) in presets.into_iter().take(k).enumerate() {
+        busy_timers(ctx, first_id + i as u64, lim, sup, &ts);
+    }
+}
+
 /// RTSS'21 workloads (C05): self-consistent bound vectors of the rr / bw analyses
 fn rtss21(ctx: &mut Ctx, id: u64, lim: u64, _tmax: u64, cmax: u64, pmax: u64) {
     let supply = gen_supply(&mut ctx.rng, pmax);
@@ -346,70 +405,73 @@ fn rrchain(ctx: &mut Ctx, id: u64, lim: u64, tmax: u64, cmax: u64, pmax: u64) {
     }
     let (si, ki) = (n - 2, n - 1); // the chain: second-to-last -> last
     let a_s = wl[si]["a"].clone();
-    let mut r: Vec<u64> = wl.iter().map(|c| u(&c["C"])).collect();
-    let mut converged = false;
-    let with_bounds = |r: &Vec<u64>| -> Vec<Value> {
-        (0..n)
-            .map(|j| {
-                let mut c = wl[j].clone();
-                c["R"] = json!(r[j]);
-                if j == ki {
-                    c["a"] = json!({"k": "prop", "J": r[si], "of": a_s});
-                }
-                c
-            })
-            .collect()
-    };
-    for _ in 0..60 {
-        let w = with_bounds(&r);
-        let mut next_r = vec![];
-        let mut failed = false;
-        for i in 0..n {
-            let inp = json!({"op": "ros2_rr", "supply": supply, "lim": lim, "workload": w, "sub": [i + 1]});
-            match guarded(&inp, ctx.watchdog_ms, call_ros2).get("ok").and_then(|x| x.as_u64()) {
-                Some(v) if v <= lim => next_r.push(v.max(r[i])),
-                _ => {
-                    failed = true;
-                    break;
+    // the round-robin analysis and the busy-window-aware analysis bound the same executor
+    for (k, op) in ["ros2_rr", "ros2_bw"].iter().enumerate() {
+        let mut r: Vec<u64> = wl.iter().map(|c| u(&c["C"])).collect();
+        let mut converged = false;
+        let with_bounds = |r: &Vec<u64>| -> Vec<Value> {
+            (0..n)
+                .map(|j| {
+                    let mut c = wl[j].clone();
+                    c["R"] = json!(r[j]);
+                    if j == ki {
+                        c["a"] = json!({"k": "prop", "J": r[si], "of": a_s});
+                    }
+                    c
+                })
+                .collect()
+        };
+        for _ in 0..60 {
+            let w = with_bounds(&r);
+            let mut next_r = vec![];
+            let mut failed = false;
+            for i in 0..n {
+                let inp = json!({"op": op, "supply": supply, "lim": lim, "workload": w, "sub": [i + 1]});
+                match guarded(&inp, ctx.watchdog_ms, call_ros2).get("ok").and_then(|x| x.as_u64()) {
+                    Some(v) if v <= lim => next_r.push(v.max(r[i])),
+                    _ => {
+                        failed = true;
+                        break;
+                    }
                 }
             }
+            if failed {
+                break;
+            }
+            if next_r == r {
+                converged = true;
+                break;
+            }
+            r = next_r;
         }
-        if failed {
-            return;
+        if !converged {
+            continue;
         }
-        if next_r == r {
-            converged = true;
-            break;
-        }
-        r = next_r;
-    }
-    if !converged {
-        return;
-    }
-    let w = with_bounds(&r);
-    let inp = json!({"op": "ros2_rr", "supply": supply, "lim": lim, "workload": w, "sub": [si + 1, ki + 1]});
-    let out = guarded(&inp, ctx.watchdog_ms, call_ros2);
-    let rc = match out.get("ok").and_then(|x| x.as_u64()) {
-        Some(v) if v <= lim => v,
-        _ => return,
-    };
-    let mut cbs = vec![];
-    for i in 0..n {
-        let t = wl[i]["t"].as_str().unwrap();
-        let (arr, rr, cap, succ) = if i == ki {
-            (json!({"k": "chain"}), rc, cap_of(ctx, &a_s, rc as i64), 0)
-        } else {
-            (arr_of(&wl[i]["a"]), r[i], cap_of(ctx, &wl[i]["a"], r[i] as i64), if i == si { ki + 1 } else { 0 })
+        let w = with_bounds(&r);
+        let inp = json!({"op": op, "supply": supply, "lim": lim, "workload": w, "sub": [si + 1, ki + 1]});
+        let out = guarded(&inp, ctx.watchdog_ms, call_ros2);
+        let rc = match out.get("ok").and_then(|x| x.as_u64()) {
+            Some(v) if v <= lim => v,
+            _ => continue,
         };
-        cbs.push(json!({"t": if t == "timer" { "timer" } else { "polled" },
-                        "prio": if t == "polled" { wl[i]["p"].as_i64().unwrap() } else { -1 },
-                        "arr": arr, "succ": succ, "C": wl[i]["C"], "R": rr, "cap": cap, "w": []}));
+        let mut cbs = vec![];
+        for i in 0..n {
+            let t = wl[i]["t"].as_str().unwrap();
+            let (arr, rr, cap, succ) = if i == ki {
+                (json!({"k": "chain"}), rc, cap_of(ctx, &a_s, rc as i64), 0)
+            } else {
+                (arr_of(&wl[i]["a"]), r[i], cap_of(ctx, &wl[i]["a"], r[i] as i64), if i == si { ki + 1 } else { 0 })
+            };
+            cbs.push(json!({"t": if t == "timer" { "timer" } else { "polled" },
+                            "prio": if t == "polled" { wl[i]["p"].as_i64().unwrap() } else { -1 },
+                            "arr": arr, "succ": succ, "C": wl[i]["C"], "R": rr, "cap": cap, "w": []}));
+        }
+        if !fits(ctx, &cbs, &supply) {
+            continue;
+        }
+        ctx.sink.raw(&json!({"id": id * 2 + k as u64, "family": format!("{}_chain", op), "supply": supply, "cbs": cbs, "lim": lim, "workload": w,
+                             "singleton_bounds": r, "chain_bound": rc, "nontrivial": true}));
     }
-    if !fits(ctx, &cbs, &supply) {
-        return;
-    }
-    ctx.sink.raw(&json!({"id": id, "family": "rrchain", "supply": supply, "cbs": cbs, "lim": lim, "workload": w,
-                         "singleton_bounds": r, "chain_bound": rc, "nontrivial": true}));
 }
 
 pub fn run(ctx: &mut Ctx) {
@@ -419,6 +481,9 @@ pub fn run(ctx: &mut Ctx) {
     let clm = if ctx.thorough { 3 } else { 2 };
     if family == "ecrts19" && ctx.thorough {
         f15_example(ctx); // three systems of ~1.6 M states each
+    }
+    if family == "ecrts19" {
+        busy_timer_presets(ctx, 910_000, 120);
     }
     for id in 1..=nsys {
         if family == "ecrts19" {
